@@ -36,6 +36,7 @@ def units(tier, seed):
         plan = [('A', 3, 2), ('A', 4, 32), ('A12', 5, 64), ('A1', 6, 32)]
     else:
         plan = [('A', 3, 2), ('A', 4, 16), ('A', 5, 320), ('A12', 6, 320), ('A1', 7, 128)]
+    plan += [('Tweb0r', 7, 8), ('Tusr0s64', 7, 16)] if tier == 'quick' else [('Tweb0r', 9, 8), ('Tusr0s64', 9, 16), ('Tusr0s8', 8, 64)]
     b = curves.bonus(seed)
     plan.append((b.name, 4, 32))
     for sx, sy in ((2.0 ** -15, 2.0 ** -15), (1.0, 2.0 ** -34), (2.0 ** 20, 2.0 ** -50)):
